@@ -27,6 +27,7 @@ func checkC11(p *Prog, c *Check) {
 	c11Restart(p, c)
 	c11Started(p, c)
 	c11Nonce(p, c, "C11-R6")
+	nonceMonotone(p, c, "C11-R6.record")
 	uniqueAddrsRule(p, c, "C11-R7")
 	linearSearchRule(p, c, "C11-R8", "keyper/shutterevents.BatchConfig.KeyperIndex", "$p0.Keypers")
 }
@@ -650,6 +651,79 @@ func c11Nonce(p *Prog, c *Check, rule string) {
 			if instrDominates(ac, call) && ParsePat("decodeTx(...)#0").Match(fi.T(ac.Common().Args[1]), Binds{}) && ParsePat("decodeTx(...)#1.RandomNonce").Match(fi.T(ac.Common().Args[2]), Binds{}) {
 				if _, has := findAtom(fi.FactsAt(ac), "Check(_.NonceTracker, decodeTx(...)#0, decodeTx(...)#1.RandomNonce) == true", Binds{}); has {
 					okAdd = true
+				}
+			}
+		}
+		if !okAdd {
+			// the pair is consumed by a helper whose success dominates the delivery: every successful
+			// return of the helper has passed Add(sender, nonce) after Check(sender, nonce) == true
+			for _, b := range fn.Blocks {
+				for _, in := range b.Instrs {
+					hc, isCall := in.(*ssa.Call)
+					if !isCall || !instrDominates(hc, call) {
+						continue
+					}
+					g := hc.Common().StaticCallee()
+					if g == nil || !inModule(g) || g.Blocks == nil || fnPkgPath(g) != fnPkgPath(fn) {
+						continue
+					}
+					g = origin(g)
+					// the helper's success holds at the delivery
+					ht := fi.T(hc)
+					succ := ""
+					for _, a := range fi.FactsAt(call) {
+						if a.L.s == ht.s && a.Op == "==" && (a.R == termTrue || a.R.s == "true") {
+							succ = "true"
+						}
+						if et := fi.errResultTerm(hc); et != nil && a.L.s == et.s && a.Op == "==" && a.R.K == TNil {
+							succ = "nil"
+						}
+					}
+					if succ == "" {
+						continue
+					}
+					gfi := p.Info(g)
+					m := map[string]*Term{}
+					for i, prm := range g.Params {
+						if i < len(hc.Common().Args) {
+							m[prm.Name()] = fi.T(hc.Common().Args[i])
+						}
+					}
+					for _, ac := range callsTo(g, "(*app.NonceTracker).Add") {
+						aa := ac.Common().Args
+						if !ParsePat("decodeTx(...)#0").Match(gfi.T(aa[1]).subst(m), Binds{}) || !ParsePat("decodeTx(...)#1.RandomNonce").Match(gfi.T(aa[2]).subst(m), Binds{}) {
+							continue
+						}
+						checked := false
+						for _, a := range gfi.FactsAt(ac) {
+							if ParseAtomPat("Check(_.NonceTracker, decodeTx(...)#0, decodeTx(...)#1.RandomNonce) == true").Match(mkAtom(a.Op, a.L.subst(m), a.R.subst(m)), Binds{}) {
+								checked = true
+							}
+						}
+						if !checked {
+							continue
+						}
+						all := true
+						nres := g.Signature.Results().Len()
+						for _, r := range returnsOf(g) {
+							if nres == 0 {
+								break
+							}
+							last := r.Results[nres-1]
+							if succ == "nil" && gfi.errIsNil(last, r, 0) == no {
+								continue
+							}
+							if succ == "true" && gfi.T(last).s == "false" {
+								continue
+							}
+							if !instrDominates(ac, r) {
+								all = false
+							}
+						}
+						if all {
+							okAdd = true
+						}
+					}
 				}
 			}
 		}
@@ -1282,12 +1356,65 @@ func c13Load(p *Prog, c *Check) {
 	}
 	c.Analysed(shortFn(fn))
 	fi := p.Info(fn)
-	decs := callsTo(fn, "(*encoding/gob.Decoder).Decode")
+	type decSite struct {
+		call   ssa.CallInstruction
+		target ssa.Value
+		helper *ssa.Function
+		prm    *ssa.Parameter
+	}
+	var decs []decSite
+	for _, d := range callsTo(fn, "(*encoding/gob.Decoder).Decode") {
+		decs = append(decs, decSite{call: d, target: unbox(d.Common().Args[1])})
+	}
+	// decoding delegated to a helper that is handed the address of the local
+	for _, b := range fn.Blocks {
+		for _, in := range b.Instrs {
+			hc, isCall := in.(*ssa.Call)
+			if !isCall {
+				continue
+			}
+			g := hc.Common().StaticCallee()
+			if g == nil || !inModule(g) || g.Blocks == nil || fnPkgPath(g) != fnPkgPath(fn) {
+				continue
+			}
+			g = origin(g)
+			for _, d := range callsTo(g, "(*encoding/gob.Decoder).Decode") {
+				prm, isP := unbox(d.Common().Args[1]).(*ssa.Parameter)
+				if !isP {
+					continue
+				}
+				for i, q := range g.Params {
+					if q == prm && i < len(hc.Common().Args) {
+						c.Analysed(shortFn(g))
+						decs = append(decs, decSite{call: d, target: unbox(hc.Common().Args[i]), helper: g, prm: prm})
+					}
+				}
+			}
+		}
+	}
 	c.Floor(rule, len(decs), 1)
-	for _, d := range decs {
-		target := unbox(d.Common().Args[1])
-		al, isAl := target.(*ssa.Alloc)
+	for _, ds := range decs {
+		d := ds.call
+		al, isAl := ds.target.(*ssa.Alloc)
 		okT := isAl
+		if okT && ds.helper != nil {
+			// stores through the helper's parameter
+			for _, ref := range *ds.prm.Referrers() {
+				fa, isFA := ref.(*ssa.FieldAddr)
+				if !isFA {
+					continue
+				}
+				for _, r2 := range *fa.Referrers() {
+					if st, isSt := r2.(*ssa.Store); isSt && st.Addr == ssa.Value(fa) {
+						name := fieldName(fa.X.Type(), fa.Field)
+						if name != "Gobpath" && name != "LastSaved" && name != "ForkHeights" {
+							c.Fail(rule, "Load:overwrite:"+name, p.siteOf(st), shortFn(ds.helper), "shapp."+name+" = …", "a persisted field is overwritten after loading")
+							okT = false
+						}
+					}
+				}
+			}
+		}
 		if okT {
 			// the same variable is what is returned
 			for _, r := range returnsOf(fn) {
